@@ -137,7 +137,40 @@ func dropRangedThenPoint(exp refmodel.Atoms, obsBases refmodel.Atoms) bool {
 	return j == len(obs) && dropped > 0
 }
 
+// c03TwoSources: Slice of a record with two source features: neither may gain a partial marker.
+func c03TwoSources(c c03Case) (ok bool, sig, detail string) {
+	locs, err := decodeAll(c.Locs)
+	if err != nil {
+		return true, "", err.Error()
+	}
+	res := locdom.Seq(c.L)
+	var out gts.Sequence
+	if p, msg := engine.Safely(func() {
+		out = gts.Slice(mkSeqKeys(res, locs, []string{"source", "source"}), c.I, c.N)
+	}); p {
+		return false, "panic", "panic: " + msg
+	}
+	had := false
+	for _, l := range locs {
+		if anyFlag(denOf(l)) {
+			had = true
+		}
+	}
+	if had {
+		return true, "", ""
+	}
+	for _, f := range out.Features() {
+		if d, ok := refmodel.Den(f.Loc); ok && anyFlag(d) {
+			return false, "source-partial-after-slice", fmt.Sprintf("slice(%v as two source features, %d, %d) on L=%d: a source feature came back as %s", c.Locs, c.I, c.N, c.L, printLoc(f.Loc))
+		}
+	}
+	return true, "", ""
+}
+
 func c03Eval(c c03Case) (ok bool, sig, detail string) {
+	if c.Op == "slice2src" {
+		return c03TwoSources(c)
+	}
 	locs, err := decodeAll(c.Locs)
 	if err != nil {
 		return true, "", "bad case: " + err.Error()
@@ -386,6 +419,14 @@ func c03Feature(c c03Case, key string, k int, loc gts.Location, dBase refmodel.A
 		if msg := outerFlagRule(dBase, removed, obs); msg != "" {
 			return "partial-marker", what + ": " + msg
 		}
+	} else if ob := obs.Bases(); len(ob) > 0 && len(b0) > 0 {
+		// "except on source features after slicing": a cut end of a source feature does not become partial
+		if removed(b0[0]) && !b0[0].LeadFlag() && ob[0].LeadFlag() {
+			return "source-partial-after-slice", what + ": the 5' end of a source feature became partial by slicing"
+		}
+		if removed(b0[len(b0)-1]) && !b0[len(b0)-1].TrailFlag() && ob[len(ob)-1].TrailFlag() {
+			return "source-partial-after-slice", what + ": the 3' end of a source feature became partial by slicing"
+		}
 	}
 	got, pan := locateLabels(f.Loc, out.Bytes())
 	if pan {
@@ -474,6 +515,45 @@ func init() {
 					break
 				}
 				r.Extra["L_completed"] = L
+			}
+			// two-feature tables: a non-leading source, two sources (slice and erase exceptions must hold for each)
+			if complete {
+				L := 4
+				sub := locdom.Clean(L, 2)
+				var pick []gts.Location
+				for k, l := range sub {
+					if k%53 == 0 {
+						pick = append(pick, l)
+					}
+				}
+				for _, l := range locdom.Contig(L) {
+					pick = append(pick, l)
+				}
+				n := len(pick)
+				done := r.ParallelFor(n*n, func(idx int) {
+					a, b := pick[idx/n], pick[idx%n]
+					for s := -L; s <= L; s++ {
+						for e := -L; e <= L; e++ {
+							for _, keys := range [][]string{{"gene", "source"}, {"source", "src2"}, {"source", "gene"}} {
+								kk := []string{keys[0], keys[1]}
+								if kk[1] == "src2" {
+									kk = []string{"source", "source"}
+								}
+								c := c03Case{Op: "slice", L: L, Locs: []string{locdom.Encode(a), locdom.Encode(b)}, Keys: kk, I: s, N: e}
+								if kk[0] == kk[1] {
+									// duplicate keys: judge through unique aliases by running each feature alone as well
+									c1 := c03Case{Op: "slice", L: L, Locs: []string{locdom.Encode(a)}, Keys: []string{"source"}, I: s, N: e}
+									eval(c1, false)
+									// and the pair through the raw API: both sources must come back without new markers
+									eval(c03Case{Op: "slice2src", L: L, Locs: c.Locs, I: s, N: e}, true)
+									continue
+								}
+								eval(c, true)
+							}
+						}
+					}
+				})
+				complete = complete && done
 			}
 			if complete {
 				complete = c03References(r)
